@@ -396,7 +396,7 @@ def check(tier: str) -> int:
                                               "encoding": v["case"]["encoding"], "file": kernel.short(v["file"], 160),
                                               "string": kernel.short(v["string"], 160)}})
             cur = examples.get(v["key"])
-            if cur is None or len(v["case"]["content"]) < len(cur["case"]["content"]):
+            if cur is None or (len(v["case"]["content"]), v["case"]["content"]) < (len(cur["case"]["content"]), cur["case"]["content"]):
                 examples[v["key"]] = v
     run_s = time.monotonic() - tr
 
